@@ -9,9 +9,8 @@ replace github.com/sdcio/data-server => /repo
 replace github.com/openconfig/goyang v1.6.0 => github.com/sdcio/goyang v1.6.0-2
 
 require (
-	github.com/sdcio/data-server v0.0.0
-	github.com/anishathalye/porcupine v1.3.0
 	github.com/AlekSi/pointer v1.2.0
+	github.com/anishathalye/porcupine v1.3.0
 	github.com/beevik/etree v1.5.0
 	github.com/google/go-cmp v0.6.0
 	github.com/gorilla/mux v1.8.1
@@ -28,6 +27,7 @@ require (
 	github.com/prometheus/client_golang v1.20.5
 	github.com/scrapli/scrapligo v1.3.3
 	github.com/sdcio/cache v0.0.35
+	github.com/sdcio/data-server v0.0.0
 	github.com/sdcio/schema-server v0.0.30
 	github.com/sdcio/sdc-protos v0.0.39
 	github.com/sdcio/yang-parser v0.0.10
@@ -35,6 +35,7 @@ require (
 	github.com/spf13/cobra v1.8.1
 	github.com/spf13/pflag v1.0.6
 	go.uber.org/mock v0.5.0
+	golang.org/x/crypto v0.32.0
 	golang.org/x/sync v0.10.0
 	google.golang.org/grpc v1.70.0
 	google.golang.org/protobuf v1.36.5
@@ -90,7 +91,6 @@ require (
 	github.com/sirikothe/gotextfsm v1.0.1-0.20200816110946-6aa2cfd355e4 // indirect
 	github.com/x448/float16 v0.8.4 // indirect
 	go.opencensus.io v0.24.0 // indirect
-	golang.org/x/crypto v0.32.0 // indirect
 	golang.org/x/exp v0.0.0-20241108190413-2d47ceb2692f // indirect
 	golang.org/x/net v0.34.0 // indirect
 	golang.org/x/oauth2 v0.24.0 // indirect
